@@ -7,6 +7,7 @@ import (
 	"github.com/aperturerobotics/bifrost/peer"
 	"github.com/aperturerobotics/bifrost/protocol"
 	"github.com/aperturerobotics/controllerbus/directive"
+	"github.com/sirupsen/logrus"
 	rt "github.com/aperturerobotics/bifrost/zz_verifrt"
 )
 
@@ -52,7 +53,7 @@ func VerifC34SrpcServer() {
 		peerIDs = append(peerIDs, p)
 		peers = append(peers, p.String())
 	}
-	s := &Server{protocolIDs: pids, peerIDs: peers}
+	s := &Server{le: logrus.NewEntry(logrus.New()), protocolIDs: pids, peerIDs: peers}
 	d, pid, local, _ := c34Stream()
 	res, err := s.HandleDirective(context.Background(), c34DI{d: d})
 	rt.Assert("no error", err == nil)
